@@ -228,6 +228,25 @@ def run_group(g, woven, scratch, want_trace=False):
     cc = ['goto-cc', '-DLHASA_VERIF', '-DHAVE_CONFIG_H', '-I', src_root, '-I', os.path.join(src_root, 'lib'),
           '-I', os.path.join(src_root, 'lib', 'public'), '-I', os.path.join(src_root, 'src'),
           '-I', os.path.join(VERIF, 'harness'), '-I', woven]
+    if g.get('subst'):
+        # reduced-size instantiation: a mechanical, must-fire-exactly-once textual substitution of a size constant of
+        # the code (stated in the group's `bound`); the substituted copy shadows the original on the include path
+        sdir = os.path.join(gdir, 'subst')
+        for sb in g['subst']:
+            srcp = os.path.join(src_root, sb['file'])
+            dstp = os.path.join(sdir, sb['file'])
+            try:
+                text = open(dstp if os.path.exists(dstp) else srcp).read()
+            except OSError as e:
+                res['reason'] = 'subst: cannot read %s: %s' % (sb['file'], e)
+                return res
+            text2, n = re.subn(sb['re'], sb['to'], text, flags=re.M)
+            if n != 1:
+                res['reason'] = 'extraction break: subst /%s/ matched %d times in %s (must be exactly 1)' % (sb['re'], n, sb['file'])
+                return res
+            os.makedirs(os.path.dirname(dstp), exist_ok=True)
+            open(dstp, 'w').write(text2)
+        cc[2:2] = ['-I', sdir, '-I', os.path.join(sdir, 'lib'), '-I', os.path.join(sdir, 'src')]
     cc += ['-D' + d for d in g['defs']]
     cc += ['--function', entry, harness, '-o', a_gb]
     rc, out, t = run_cmd(cc, 120, 8)
